@@ -15,14 +15,13 @@ Definition dmathtab : dec mathtab :=
   dlet lg <- dlist (dpair dZ dQ); dlet sq <- dlist (dpair dZ dQ);
   dret {| mt_log := assocZ lg; mt_sqrt := assocZ sq |}.
 
-(* input: tps cpus mathtab segs; output: per segment (io ticks, cpu ticks), then the script *)
+(* input: tps cpus mathtab segs; output: the per-tick demand of the operator *)
 Definition run_time (l : list Z) : list Z :=
   match run_dec (dlet tps <- dZ; dlet cpus <- dZ; dlet mt <- dmathtab; dlet segs <- dlist dseg;
                  dret (tps, cpus, mt, segs)) l with
   | Some (tps, cpus, mt, segs) =>
       if (0 <? tps)%Z && (0 <? cpus)%Z then
-        eL (fun p => [fst p; snd p]) (op_seg_ticks rnd64 mt tps cpus segs)
-        ++ eL eQ (op_script rnd64 mt tps cpus segs)
+        eL eQ (op_script rnd64 mt tps cpus segs)
       else bad_input
   | None => bad_input
   end.
